@@ -329,8 +329,26 @@ pub fn gen_c18(tier: &str, seed: u64, out: &mut Vec<String>) {
 pub fn gen_c12(tier: &str, seed: u64, out: &mut Vec<String>) {
     let mut rng = Rng::new(seed ^ 0xC12);
     let n = if tier == "thorough" { 3000 } else { 300 };
-    let outcomes = ["unhandled", "unhandled", "handled", "stop", "stophandled", "error", "tryreg", "stoperror"];
+    let outcomes = ["unhandled", "unhandled", "handled", "stop", "stophandled", "error", "tryreg", "stoperror", "errorempty"];
     for case in 0..n {
+        if case % 11 == 9 {
+            // registration lists that overlap with what is registered (or with themselves): known entries are skipped, every
+            // new one is installed wherever it stands in the list
+            let prog = vec![mov_r_imm32(0, 12), mov_r_imm32(7, 0), syscall(), mov_r_imm32(0, 158), mov_r_imm32(7, 0x1003), syscall(), mov_r_imm32(0, 60), syscall(), nop()];
+            let (code, _) = assemble(&prog, CODE);
+            emit_new(out, &code, CODE);
+            out.push(setregs_at(&mut rng, CODE));
+            out.push(format!("syscalls {}", *rng.pick(&["60", "158", "60,158", "12"])));
+            out.push(format!("syscalls {}", *rng.pick(&["60,12,158", "60,60,12,158", "158,60,12", "12,12,60,158"])));
+            out.push("sys".into());
+            for _ in 0..9 {
+                out.push("step".into());
+                out.push("rr 64 RAX".into());
+                out.push("state".into());
+            }
+            out.push("areas".into());
+            continue;
+        }
         if case % 11 == 10 {
             // a hook tries to register from inside (refused); the same registration made afterwards, outside any hook, works
             // (the instruction that needs a handler varies: without one it fails, refused attempts count for nothing)
